@@ -194,7 +194,7 @@ def to_py(v, ctx):
     if t == 'np':
         return np.dtype(v['dtype']).type(v['v'])
     if t == 'str':
-        return v['v']
+        return sys.intern(v['v'])      # like a literal in the caller's source: the same object as an equal literal inside the library
     if t == 'dt':
         tz = None
         if v.get('zone'):           # a named zone with daylight saving time: `fold` tells the two 02:30 of an autumn night apart
